@@ -213,6 +213,35 @@ for it in range(N // 5):
                 {"n": n, "draw": it, "motion": name}, lambda name=name, coord=coord, move=move: library_motion_contract(name, coord, move))
 
 
+def special_directions_contract(coord, o, t):
+    """align_vectors() for parallel, antiparallel and nearly antiparallel directions: the half turn has no unique
+    axis, so the library may refuse exactly opposite directions (ValueError) -- but whatever it returns is a rigid
+    motion (no mirror image) that turns the origin direction onto the target direction"""
+    o, t = np.array(o, dtype=float), np.array(t, dtype=float)
+    try:
+        struc.align_vectors(coord.astype(np.float32), o, t)
+    except ValueError:
+        return None
+    err = library_motion_contract(f"align_vectors({o.tolist()} -> {t.tolist()})", coord, lambda a: struc.align_vectors(a, o, t))
+    if err:
+        return err
+    # the direction itself: two points o apart are t-parallel apart afterwards
+    pts = np.array([[0.0, 0.0, 0.0], o], dtype=np.float32)
+    out = np.asarray(struc.align_vectors(pts, o, t), dtype=float)
+    d = out[1] - out[0]
+    cosang = float(np.dot(d, t) / (np.linalg.norm(d) * np.linalg.norm(t)))
+    if cosang < 1 - 1e-4:
+        return f"align_vectors({o.tolist()} -> {t.tolist()}) turns the origin direction to {d.round(4).tolist()} (cos of the angle to the target {cosang:.5f})"
+    return None
+
+
+_sd_coord = np.cumsum(rng.normal(size=(7, 3)) * 1.5, axis=0) + 3.0
+for o, t in (([0, 0, 1], [0, 0, -1]), ([2, 0, 0], [-0.5, 0, 0]), ([1, 1, 0], [-1, -1, 0]), ([1, 2, 3], [-1, -2, -3]), ([0, 1, 0], [0, -3, 0]),
+             ([0, 0, 1], [0, 0, 1]), ([1, 2, 3], [2, 4, 6]), ([0, 0, 1], [0, 1e-4, -1]), ([1, 0, 0], [-1, 1e-3, 0]), ([0, 0, 1], [1, 0, 0])):
+    R.check("the library's own rigid motions keep distances and signed dihedrals", "transform: align_vectors, special directions",
+            {"origin": o, "target": t}, lambda o=o, t=t: special_directions_contract(_sd_coord, o, t))
+
+
 # ---------------------------------------------------------------- backbone dihedrals, centroid
 def backbone_contract(n_res, stack, missing):
     """dihedral_backbone: phi / psi / omega of every residue equal the textbook dihedral of the four backbone atoms
